@@ -139,6 +139,7 @@ PLAN = {
              "plus step-wise itnew/itnext interleavings (the iterator state machine)",
     ),
     "C12": dict(
+        tlaps=dict(quick=["SetAlgebraLaws"]),
         gen=dict(quick=[("Gen_C12", "Gen_C12.cfg"), SYS(25)], thorough=[("Gen_C12", "Gen_C12_T.cfg"), SYS(400)]),
         traces=[("sweep_c12", (1, 2)), ("long_c12", (1, 2)), ("c12", (1, None)), ("c12all", (None, 1)), ("c12dna", (1, 1))],
         codecs={"sweep_c12": ["iupac"], "long_c12": ["iupac"], "c12": ["iupac"], "c12all": ["iupac"], "c12dna": ["dna"]},
